@@ -341,6 +341,13 @@ func (a *Act) inline(st *State, callee *ssa.Function, args []Val, env []Val, pos
 		return a.freshResult(st, callee.Signature)
 	}
 	*st = *out
+	// results of a Go function satisfy the invariants of their types (slices well formed, references
+	// allocated) - also when the value is a merge of several return sites
+	for i, v := range vals {
+		if v.Loc == nil && v.Tuple == nil && v.T != "" && i < callee.Signature.Results().Len() {
+			a.assumeAllocated(st, v.T, callee.Signature.Results().At(i).Type())
+		}
+	}
 	return resultVal(vals, callee.Signature)
 }
 
